@@ -1,4 +1,5 @@
 import Abmarl.Props.C01
+import Abmarl.Props.Examples
 #print axioms Abmarl.C01_managers_honour_done_protocol
 #print axioms Abmarl.C01_stub
 #print axioms Abmarl.specLoop_at
@@ -11,3 +12,15 @@ import Abmarl.Props.C01
 #print axioms Abmarl.c01_ledger
 #print axioms Abmarl.shuffle_perm
 #print axioms Abmarl.c01_final_report
+#print axioms Abmarl.C01_examples
+#print axioms Abmarl.C01_TeamBattle
+#print axioms Abmarl.C01_PredatorPrey
+#print axioms Abmarl.C01_MazeNavigation
+#print axioms Abmarl.C01_TrafficCorridor
+#print axioms Abmarl.C01_MultiMaze_partial
+#print axioms Abmarl.multiMaze_not_lawful
+#print axioms Abmarl.Ex.ex_lawful
+#print axioms Abmarl.Ex.ex_WF
+#print axioms Abmarl.Ex.ex_lawful_erased
+#print axioms Abmarl.examples_hist
+#print axioms Abmarl.examples_get_reward_total
